@@ -170,6 +170,14 @@ def rename(inference_state, definitions, new_name):
             if tree_name is not None:
                 fmap = file_tree_name_map.setdefault(d.module_path, {})
                 fmap[tree_name] = tree_name.prefix + new_name
+    for old_path, new_path in sorted(file_renames):
+        # Moving a file or a package onto an existing one would overwrite it
+        # (or fail half way through apply()).
+        if new_path != old_path and new_path.exists():
+            raise RefactoringError(
+                "Cannot rename %s to %s, because %s already exists"
+                % (old_path.name, new_path.name, new_path)
+            )
     return Refactoring(inference_state, file_tree_name_map, file_renames)
 
 
